@@ -783,6 +783,7 @@ def _basic_status(basic):
 
 
 SELFTESTS = [
+    (rule_short_writes, ["c11_write_bad.cc"], ["c11_write_good.cc"], "write#"),
     (rule_dfs_epilogue, ["c11_main_bad.cc"], ["c11_main_good.cc"], "return#"),
     (rule_cout_state_census, ["c11_main_bad.cc"], ["c11_main_good.cc"], "ostreambuf_iterator"),
     (rule_ofstream_typestate, ["c11_ofs_bad.cc"], ["c11_ofs_good.cc"], "outfile"),
